@@ -13,6 +13,7 @@ package core
 //@ func (*Blockchain).storeBlock
 //@ may-panic
 //@ opt frame off
+//@ opt opaque-callees (*Pool).RemoveStale,(*Pool).Add,(*Pool).Remove
 //@ requires bc != nil && block != nil
 //@ call dao::(*Simple).Persist requires[halted] arg0 == systemInterop.DAO ==> !v.failed
 
